@@ -43,7 +43,7 @@ def names_case(draw):
     setups = []
     for s in lay["setups"]:
         setups.append([(f"r{g}_{len(setups)}" if g < k else f"m{g}") for g in s["chan"]])
-    return {"multi": True, "layout": lay, "setup_names": setups, "form": draw(st.sampled_from(["table", "listoflists"]))}
+    return {"multi": True, "layout": lay, "setup_names": setups, "form": draw(st.sampled_from(["table", "listoflists"])), "host": draw(st.sampled_from(["preger", "poser"]))}
 
 
 def _flat_names(nc):
@@ -74,10 +74,28 @@ def _ref_ind(nc):
     return [list(s["ref_ind"]) for s in nc["layout"]["setups"]] if nc["multi"] else None
 
 
+def _poser_host(nc):
+    """MultiSetup_PoSER over single setups that have been run and had their modes picked (its constructor demands that)"""
+    from pyoma2.algorithms import FDD
+    from pyoma2.setup import MultiSetup_PoSER
+
+    rng = np.random.default_rng(7)
+    singles = []
+    for s in nc["layout"]["setups"]:
+        ss = SingleSetup(rng.normal(size=(96, len(s["chan"]))), fs=10.0)
+        ss.add_algorithms(FDD(name="a", nxseg=32))
+        ss.run_all()
+        ss.mpe("a", sel_freq=[2.0])
+        singles.append(ss)
+    return MultiSetup_PoSER(ref_ind=_ref_ind(nc), single_setups=singles, names=["a"])
+
+
 def _host(nc):
     if not nc["multi"]:
         return SingleSetup(np.zeros((4, max(1, len(nc["names"])))), fs=10.0)
     lay = nc["layout"]
+    if nc.get("host") == "poser":
+        return _poser_host(nc)
     return MultiSetup_PreGER(fs=10.0, ref_ind=_ref_ind(nc), datasets=[np.zeros((4, len(s["chan"]))) for s in lay["setups"]])
 
 
@@ -146,7 +164,7 @@ def judge_geo1(case):
     j = J()
     d, truth, names = _geo1_tables(case)
     nc = case["names"]
-    j.tag("multi" if nc["multi"] else "single", nc["form"], case["via"])
+    j.tag(("multi-" + nc.get("host", "preger")) if nc["multi"] else "single", nc["form"], case["via"])
     j.nontrivial(case["permute"] or nc["multi"] or any(k in d for k in ("sensors lines", "BG nodes", "BG lines", "BG surfaces")))
     via = case["via"]
     if via == "check":
@@ -280,7 +298,7 @@ def judge_geo2(case):
     j = J()
     d, names = _geo2_tables(case)
     nc = case["names"]
-    j.tag("multi" if nc["multi"] else "single", nc["form"], case["via"], "cstr" if "constraints" in d else "nocstr")
+    j.tag(("multi-" + nc.get("host", "preger")) if nc["multi"] else "single", nc["form"], case["via"], "cstr" if "constraints" in d else "nocstr")
     j.nontrivial(nc["multi"] or "constraints" in d or len(d) > 3)
     via = case["via"]
     if via == "check":
